@@ -11,7 +11,7 @@ SPEC = dict(
     level="proof",
     coq_dirs=["lib", "C01", "C11/Proofs.v", "PS", "C07", "C09"],
     technique="Coq theorems over the Gallina model of check_liquidatable / validate / increase / decrease and of the liquidation and ADL gates of ops/order.rs::execute_decrease_position + full-state differential correspondence over generated histories (incl. check_liquidatable before and after every operation, evaluated by the real code) + the property evaluated on the implementation's observations + a source check that the gates are present in ops/order.rs in the modelled order",
-    text="Proved for all states, prices and configurations: a successful increase leaves check_liquidatable(validate thresholds) = None and, when the liquidation factor does not exceed the validation factor, also under the liquidation thresholds; a decrease that leaves the position open leaves it validated (factor-based reasons excluded) and the only reason it can be liquidatable for is MinCollateral (known class); a liquidation order succeeds only if check_liquidatable(pre-state, true, true) = Some _ and then size_delta = size, the position is removed and zeroed; an ADL order succeeds only if the pnl factor exceeded max_pnl_factor_for_adl, and then the factor after is strictly lower and not below min_pnl_factor_after_adl. The driver evaluates the real check_liquidatable before and after each operation of each history and the oracle checks these clauses on those observations.",
+    text="History level (c09_gate_history): from any world satisfying the C07 invariant, every successful operation of every history obeys its gate. Action level: Proved for all states, prices and configurations: a successful increase leaves check_liquidatable(validate thresholds) = None and, when the liquidation factor does not exceed the validation factor, also under the liquidation thresholds; a decrease that leaves the position open leaves it validated (factor-based reasons excluded) and the only reason it can be liquidatable for is MinCollateral (known class); a liquidation order succeeds only if check_liquidatable(pre-state, true, true) = Some _ and then size_delta = size, the position is removed and zeroed; an ADL order succeeds only if the pnl factor exceeded max_pnl_factor_for_adl, and then the factor after is strictly lower and not below min_pnl_factor_after_adl. The driver evaluates the real check_liquidatable before and after each operation of each history and the oracle checks these clauses on those observations.",
     level_note="Known finding (class 1, MinCollateralAfterPartialDecrease, replayed on the real code, proved as c09_min_collateral_after_partial_decrease_refuted): a partial decrease with a collateral withdrawal is validated without the minimum-collateral-value test and check_partial_close estimates the remaining collateral without fees, so the position can be left open yet liquidatable (MinCollateral) at the same prices. Hypothesis liq_factor_le (min_collateral_factor_for_liquidation <= min_collateral_factor when set) is a configuration constraint NOT validated by the model crate; the driver only generates configurations satisfying it. The liquidation/ADL gates live in programs/store/src/ops/order.rs::execute_decrease_position, which cannot run without the on-chain runtime: they are modelled in Coq (liquidate, auto_deleverage), replicated in the driver around the real model-crate calls, and checks/c09.py verifies on every run that the source still contains the gate statements in the modelled order (a dropped or reordered gate fails the check); the numeric behaviour of the gates' ingredients (pnl_factor_exceeded, pnl_factor, decrease flags) is covered by the correspondence.",
     design_ref="DESIGN.md section 6, C09",
     explanation="Histories as for C07 with more liquidation / ADL attempts, adverse and favourable price jumps, scarce pools, and partial decreases whose withdrawal leaves about the minimum collateral; case 0 is the scripted replay of the design-phase finding.",
